@@ -58,7 +58,7 @@ fn write_after_finish() {
 
 pub fn run() {
     write_after_finish();
-    if std::env::var("RUST_BACKTRACE").is_ok() {
+    if std::env::var("C05_LOCATE").is_ok() {
         // locate the panic of the zero-width column
         let a: ArrayRef = Arc::new(FixedSizeBinaryArray::try_new_with_len(0, arrow_buffer::Buffer::from_vec(Vec::<u8>::new()), None, 3).unwrap());
         let schema = Arc::new(Schema::new(vec![Field::new("c", a.data_type().clone(), true)]));
@@ -119,6 +119,19 @@ pub fn run() {
                     .build();
                 roundtrip_with(&format!("cdc int32 x60 page_rows={rows} oi_off={oi_off}"), a, Some(p));
             }
+        }
+    }
+    {
+        use parquet::file::properties::{CdcOptions, WriterProperties, WriterVersion};
+        for (rows, v2) in [(3usize, true), (1, true), (3, false)] {
+            let a: ArrayRef = Arc::new(BooleanArray::from((0..60).map(|i| i % 3 == 0).collect::<Vec<bool>>()));
+            let p = WriterProperties::builder()
+                .set_writer_version(if v2 { WriterVersion::PARQUET_2_0 } else { WriterVersion::PARQUET_1_0 })
+                .set_content_defined_chunking(Some(CdcOptions { min_chunk_size: 8, max_chunk_size: 200, norm_level: 1 }))
+                .set_data_page_row_count_limit(rows)
+                .set_write_batch_size(2)
+                .build();
+            roundtrip_with(&format!("cdc boolean x60 page_rows={rows} v2={v2} (v2: RLE values)"), a, Some(p));
         }
     }
     let _ = DataType::Null;
